@@ -119,6 +119,7 @@ pub fn evaluate_code(code: &CodeBody) -> Option<EvaluatedValue> {
                         _ => return None,
                     }
                 }
+                Statement::Exec(Rvalue::WriteSubscript(..)) => return None, // modifies local
                 Statement::Exec(_) => {} // uninteresting as a constant expression
                 Statement::ObserveProperty(..) => {}
             }
